@@ -123,7 +123,7 @@ def run(tier: str) -> int:
             {"Family": "stack", "MaxLen": 3, "Starts": "zero", "Sample": 250, "workers": 3},
             {"Family": "trivia2", "MaxLen": 3, "Starts": "zero", "Sample": 200, "workers": 3},  # every trivia configuration, also COMMENT alone (fused SKIP rule)
             {"Family": "opttrv", "MaxLen": 3, "Starts": "zero", "Sample": 120, "workers": 3, "style": "min"},
-            {"Family": "trivfx", "MaxLen": 3, "Starts": "zero", "Sample": 120, "workers": 3},
+            {"Family": "trivfx", "MaxLen": 3, "Starts": "zero", "Sample": 500, "workers": 4},
         ]
     else:
         fams = [
